@@ -59,7 +59,9 @@ def gen_path_value(rng, tkind, index):
     if r < 0.72:
         # raw (unescaped) characters a foreign implementation may leave
         return 'dest/' + rng.choice(['a b', 'a+b', 'é', "it's", 'a&b', 'x=y',
-                                     'a#b', 'tab\there']) + str(index % 10), 'rel-raw'
+                                     'a#b', 'tab\there', 'ff\x0chere', 'vt\x0bhere',
+                                     'ls\u2028here', 'nel\x85here', 'fs\x1chere',
+                                     'ps\u2029here']) + str(index % 10), 'rel-raw'
     if r < 0.80:
         return 'dest/' + rng.choice(['%41%42', '%e9', '%C3%A9', '%ff%fe',
                                      '%2e%2e', '%zz', '%', '%4', 'a%2Fb',
@@ -104,9 +106,16 @@ def gen_text(rng, tkind, index):
     elif r < 0.76:
         text = '[Trash Info]\nPath=%s\nDeletionDate=%s' % (pv, date)
         tclass = 'no-final-newline'
-    elif r < 0.82:
+    elif r < 0.79:
         text = '[Trash Info]\nPath=%s\nDeletionDate=%s \n' % (pv, date)
         tclass = 'date-trailing-space'
+    elif r < 0.82:
+        # near-valid forms a lenient reader might accept: all four commands
+        # or none
+        text = '[Trash Info]\nPath=%s\nDeletionDate=%s\n' % (pv, rng.choice(
+            [date.replace('T', ' '), date.replace('T', 't'), date + 'Z',
+             date[:16], date.replace('-', '/'), date + '.000']))
+        tclass = 'date-near-valid'
     elif r < 0.88:
         text = '[Trash Info]\nPath=%s\n' % pv
         tclass = 'no-date'
